@@ -135,6 +135,20 @@ func RunCheck(cfg CheckConfig) int {
 	var notes []string
 	var names []string
 	seenKnown := map[string]bool{}
+	var deadNames []string
+	var slow []slowObl
+	var expDead map[string]bool
+	expDeadN := map[string]int{} // function -> number of reviewed unreachable return points
+	deadFile := filepath.Join(cfg.VerifDir, "expected", prop+".dead.txt")
+	if b, err := os.ReadFile(deadFile); err == nil && os.Getenv("GOVC_WRITE_EXPECTED") == "" {
+		expDead = map[string]bool{}
+		for _, l := range strings.Split(string(b), "\n") {
+			if f := strings.Fields(l); len(f) > 0 && !strings.HasPrefix(f[0], "#") {
+				expDead[strings.SplitN(f[0], "@", 2)[0]] = true
+				expDeadN[strings.SplitN(f[0], "#", 2)[0]]++
+			}
+		}
+	}
 	for _, fr := range reports {
 		if fr.Missing {
 			violations++
@@ -178,6 +192,9 @@ func RunCheck(cfg CheckConfig) int {
 			}
 			nObl++
 			fo++
+			if r.Verdict.Time > 1.0 && !r.Batched {
+				slow = append(slow, slowObl{o.Name, r.Verdict.Solver, r.Verdict.Status, r.Verdict.Time})
+			}
 			names = append(names, o.Name)
 			bySolver[r.Verdict.Solver]++
 			if len(samples) < 6 && (len(samples) == 0 || o.Kind == "post") {
@@ -224,10 +241,40 @@ func RunCheck(cfg CheckConfig) int {
 		}
 		// vacuity: contradictory preconditions, or no return is reachable although the function has returns.
 		// (a single infeasible return is dead code, e.g. a constant-folded branch, and is only noted)
+		postFailed := false
+		deadRet := map[string]bool{}
+		for _, r := range fr.Results {
+			if !r.Obl.Cover && !r.OK {
+				postFailed = true
+			}
+			if r.Obl.Cover && !r.OK && strings.Contains(r.Obl.Name, "#cover.return.") {
+				deadRet[strings.Replace(r.Obl.Name, "#cover.return.", "#cover.exit.", 1)] = true
+			}
+		}
+		var dc2 []*OblResult
 		for _, r := range deadCovers {
+			if strings.Contains(r.Obl.Name, "#cover.exit.") {
+				// an exit that is infeasible although its return point is feasible and every obligation holds:
+				// the facts assumed at the return contradict each other
+				if !deadRet[r.Obl.Name] && !postFailed {
+					violations++
+					fail(r.Obl.Name, "vacuity: the facts assumed at this return point (ghost definitions, postconditions) are contradictory", r.Verdict.Output)
+				}
+				continue
+			}
+			dc2 = append(dc2, r)
+		}
+		deadCovers = dc2
+		for _, r := range deadCovers {
+			deadNames = append(deadNames, r.Obl.Name+"@"+posLine(r.Obl.Pos))
 			if strings.HasSuffix(r.Obl.Name, "#cover.requires") || (nRet > 0 && nRetDead == nRet) {
 				violations++
 				fail(r.Obl.Name, "vacuity: the path to this point is infeasible under the contract's assumptions (contradictory requires/ensures)", r.Verdict.Output)
+			} else if expDead != nil && len(deadCovers) > expDeadN[fr.Func] {
+				// every unreachable return point was reviewed when the contract was written (expected/<prop>.dead.txt):
+				// a return point that becomes unreachable afterwards means the contract no longer covers that path
+				violations++
+				fail(r.Obl.Name, "vacuity: this return point is infeasible under the contract's assumptions and is the function has more unreachable return points than the reviewed list (expected/<prop>.dead.txt) allows", r.Verdict.Output)
 			} else {
 				notes = append(notes, fr.Func+": return point "+r.Obl.Name+" is unreachable (dead code or excluded by the preconditions)")
 			}
@@ -256,9 +303,9 @@ func RunCheck(cfg CheckConfig) int {
 		}
 	}
 	if os.Getenv("GOVC_WRITE_EXPECTED") != "" {
-		sort.Strings(names)
+		sort.Strings(deadNames)
 		os.MkdirAll(filepath.Dir(expFile), 0o755)
-		os.WriteFile(expFile, []byte(strings.Join(names, "\n")+"\n"), 0o644)
+		os.WriteFile(deadFile, []byte("# return points that are unreachable under the contracts (reviewed): name@source position\n"+strings.Join(deadNames, "\n")+"\n"), 0o644)
 	}
 	var trusted []string
 	for k := range g.trustedUsed {
@@ -280,6 +327,7 @@ func RunCheck(cfg CheckConfig) int {
 		"by_solver":                bySolver,
 		"solver_time_s":            round3(solverTime),
 		"samples":                  samples,
+		"slowest_obligations":      slowest(slow, 8),
 		"vacuity_covers":           map[string]int{"checked": nCover, "feasible": nCoverOK},
 		"known_findings_seen":      knownSeen,
 		"abstract_calls":           abstract,
@@ -300,6 +348,31 @@ func RunCheck(cfg CheckConfig) int {
 		return 1
 	}
 	return 0
+}
+
+type slowObl struct {
+	Name, Solver, Status string
+	Time                 float64
+}
+
+func slowest(xs []slowObl, n int) []map[string]any {
+	sort.Slice(xs, func(i, j int) bool { return xs[i].Time > xs[j].Time })
+	var r []map[string]any
+	for i, x := range xs {
+		if i >= n {
+			break
+		}
+		r = append(r, map[string]any{"obligation": x.Name, "solver": x.Solver, "verdict": x.Status, "time_s": round3(x.Time)})
+	}
+	return r
+}
+
+// posLine trims a source position to file:line relative to the repository.
+func posLine(p string) string {
+	if i := strings.LastIndex(p, "/"); i >= 0 {
+		p = p[i+1:]
+	}
+	return p
 }
 
 func round3(x float64) float64 { return float64(int(x*1000)) / 1000 }
